@@ -15,11 +15,22 @@ def cfg_opts(cfgname):
 def tag(src):
     return 'm%d.%d' % (src[0], src[1])
 
+def projection(st):
+    """The part of a ServerImpl state that VerifSnapshot can show: queue length, reserved ids, callback ids, running."""
+    if not st or 'inq' not in st: return None
+    def dom(f):
+        if isinstance(f, dict): return sorted(str(k) for k in f)
+        return [str(i + 1) for i in range(len(f))]          # a function with domain 1..n prints as a sequence
+    return dict(qlen=len(st['inq']), reserved=dom(st['used']), callbacks=dom(st['calls']), running=(st['ch'] == 'open'))
+
 def convert(beh, rng, name, opts, steer=True):
     """Turn a ServerImpl behaviour (list of (action,args)) into a harness scenario."""
     steps = []
     nsend = 0
-    for act, a in beh:
+    for item in beh:
+        act, a = item[0], item[1]
+        st = item[2] if len(item) > 2 else None
+        nsteps = len(steps)
         if act == 'Init': continue
         if act == 'PeerSend':
             m = a[0]; nsend += 1
@@ -46,6 +57,9 @@ def convert(beh, rng, name, opts, steer=True):
         elif act == 'Restart': steps.append(dict(a='restart'))
         else:
             raise C.ToolError('unknown ServerImpl action %s' % act)
+        if steer and len(steps) == nsteps + 1 and act not in ('WaitStatusReturn',):
+            pj = projection(st)
+            if pj is not None: steps[-1]['proj'] = pj
     if not steer:
         # keep only the external actions; internal ones are chosen by the seeded scheduler
         ext = []
@@ -84,6 +98,14 @@ def directed(rng):
         add('f7-%d' % v, {}, [S(call(1)), D, dict(a='cancel', id='1'), D, S(call(1)), D, hret('m1.1', 'ctxerr'), D, hret('m2.1'), D])
         # nf sibling keeps its reservation until the batch reply
         add('nf-sibling-%d' % v, {}, [S(call(1, 'nf'), call(2)), D, S(call(1)), D, hret('m1.2'), D, hret('m2.1'), D, S(call(1)), D])
+        # never-executed members (duplicate / invalid) in front of an executed call of the same batch; then its id is reused
+        add('dup-then-ok-%d' % v, {}, [S(call(1), call(1), call(2)), D, hret('m1.3'), D, S(call(2)), D, hret('m2.1'), D, S(call(1)), D, hret('m3.1'), D])
+        add('inv-then-ok-%d' % v, {}, [S(inv(3, False, v), call(2), inv(0, v % 2 == 0, v)), D, hret('m1.2', OUTS_ERR[v]), D, S(call(2), call(3)), D, hret('m2.1'), hret('m2.2'), D])
+        # a batch whose notification is not its last member: shutdown must still wait for the notification handler
+        add('stop-note-in-batch-%d' % v, {'conc': 2 + v, 'recvUnblocks': bool(v % 2)}, [S(note(), call(1)), D, hret('m1.2'), D, dict(a='stop'), dict(a='peerclose'), D, hret('m1.1'), D])
+        add('eof-note-in-batch-%d' % v, {'conc': 3}, [S(note(), note(), call(1)), D, hret('m1.3'), hret('m1.2'), D, dict(a='peerclose'), D, hret('m1.1'), D])
+        # a running call of a mixed batch must not hold back later messages once the batch's notification is done
+        add('mixed-batch-then-call-%d' % v, {'conc': 3}, [S(note(), call(1)), D, hret('m1.1'), D, S(call(2)), D, S(note()), D, hret('m2.1'), hret('m3.1'), D, hret('m1.2'), D])
         # F2/F3: records after Stop
         add('f2-%d' % v, {}, [dict(a='stop'), D, dict(a='send', kind='garbage'), D])
         add('f2e-%d' % v, {}, [dict(a='stop'), D, dict(a='send', kind='empty'), D])
@@ -127,13 +149,27 @@ def directed(rng):
 
 FAMILY = {
     # property: (quick design cfgs, thorough design cfgs, simulate cfgs, depth)
-    'C01': (['srv_c01'], ['srv_c01', 'srv_c03'], ['srv_c01', 'srv_c07'], 45),
+    'C01': (['srv_c01'], ['srv_c01', 'srv_c03'], ['srv_c01', 'srv_c07', 'srv_c09'], 45),
     'C03': (['srv_c03q'], ['srv_c03'], ['srv_c03', 'srv_c06'], 45),
     'C06': (['srv_c06'], ['srv_c06', 'srv_c03'], ['srv_c06', 'srv_c03'], 45),
-    'C07': (['srv_c07'], ['srv_c07', 'srv_c03'], ['srv_c07', 'srv_c06'], 45),
+    'C07': (['srv_c07q'], ['srv_c07', 'srv_c03'], ['srv_c07', 'srv_c06'], 45),
     'C08': (['srv_c08q'], ['srv_c08', 'srv_c08u'], ['srv_c08', 'srv_c08u', 'srv_c08r'], 50),
     'C09': (['srv_c09'], ['srv_c09', 'srv_c09b', 'srv_c09r'], ['srv_c09', 'srv_c09b', 'srv_c09r'], 45),
 }
+
+# model sensitivity: with the repair of a finding switched off TLC must find the violation (else exit 2)
+REGRESS = {'C07': [('regress_F1', 'C07_Reservations'), ('regress_F7', 'C07_Reservations')],
+           'C08': [('regress_F23', 'NoCrash'), ('regress_F4', 'NoCrash')],
+           'C09': [('regress_F9', 'C09_NoAnswerToLateReply')]}
+
+def must_fail(cfg, inv, module='MCServer'):
+    w = C.scratch('tlcbad')
+    try:
+        rc, out = C.run_tlc(w, module, C.read_cfg(cfg), timeout=600)
+        if ('Invariant %s is violated' % inv) not in out:
+            raise C.ToolError('sensitivity run %s did not produce the expected violation of %s:\n%s' % (cfg, inv, out[-1500:]))
+    finally:
+        shutil.rmtree(w, ignore_errors=True)
 
 def gen_scenarios(prop, tier, seed, nsim):
     rng = random.Random(seed * 7919 + zlib.crc32(prop.encode()) % 1000)
@@ -141,7 +177,7 @@ def gen_scenarios(prop, tier, seed, nsim):
     scs = []
     for ci, cfg in enumerate(simcfgs):
         opts = cfg_opts(cfg)
-        behs = C.simulate(cfg, 'MCServer', nsim // len(simcfgs) + 1, depth, seed * 31 + ci)
+        behs = C.simulate_states(cfg, 'MCServer', nsim // len(simcfgs) + 1, depth, seed * 31 + ci)
         for bi, beh in enumerate(behs):
             steer = (bi % 4 != 3)
             scs.append(convert(beh, rng, '%s-%s-%d%s' % (prop, cfg, bi, '' if steer else '-r'), dict(opts), steer=steer))
@@ -167,6 +203,8 @@ def run_check(prop, tier, seed, replay=None):
         if replay is None:
             for cfg in (quick_cfgs if tier == 'quick' else thorough_cfgs):
                 design.append(C.model_check(cfg, 'MCServer', timeout=1500))
+            for cfg, inv in REGRESS.get(prop, []):
+                must_fail(cfg, inv)
         binp = C.build_harness('srvfam', work)
         if replay is not None:
             scs = [json.load(open(replay))['scenario']]
@@ -196,11 +234,11 @@ def run_check(prop, tier, seed, replay=None):
         div = sum(t[0].get('st_diverged', 0) for t in traces)
         distinct = len({signature(t) for t in traces})
         cov = dict(states=sum(d['states'] for d in design) or 1, transitions=sum(d['transitions'] for d in design) or 1,
-                   design_runs=design, traces_validated_against_impl=accepted + len(rej),
+                   design_runs=design, must_fail_runs=[c for c, _ in REGRESS.get(prop, [])], traces_validated_against_impl=accepted + len(rej),
                    scenarios=len(scs), distinct_nontrivial=distinct, evaluations=len(traces),
                    rule='scenarios = ServerImpl behaviours from tlc -simulate (external actions performed, internal actions replayed by releasing the matching gate) '
                         '+ directed histories; non-trivial/distinct = distinct sequences of observable event kinds',
-                   racy_schedules=racy, steering_divergences=div, crashes=len(info['crashes']),
+                   racy_schedules=racy, steering_divergences=div, state_projections_compared=sum(t[0].get('st_projok', 0) for t in traces), conformance_drift=sum(t[0].get('st_drift', 0) for t in traces), crashes=len(info['crashes']),
                    samples=[dict(scenario=scs[0]['name'], steps=scs[0]['steps'][:12], events=[e['ev'] for e in traces[0]][:40])],
                    exhaustive=False)
         C.write_evidence(prop, tier, seed, 'model_checking', cov, time.time() - t0, len(violations),
